@@ -37,9 +37,12 @@ func (c *ctx) nilContext() {
 				return true
 			}
 			// stored from an argument of the directive call (not copied from an already compiled directive)
-			if ix, ok := astx.Unparen(kv.Value).(*ast.IndexExpr); !ok {
-				return true
-			} else if se, ok := astx.Unparen(ix.X).(*ast.SelectorExpr); !ok || se.Sel.Name != "Args" {
+			// the argument itself (`call.Args[0]`) or a local that holds it (`ctx := args[0]`, a destructuring helper)
+			if ix, ok := astx.Unparen(kv.Value).(*ast.IndexExpr); ok {
+				if se, ok := astx.Unparen(ix.X).(*ast.SelectorExpr); !ok || se.Sel.Name != "Args" {
+					return true
+				}
+			} else if _, isIdent := astx.Unparen(kv.Value).(*ast.Ident); !isIdent {
 				return true
 			}
 			fd := fc.funcDecl(kv)
